@@ -38,7 +38,11 @@ func init() {
 		if n1 < 40 || n2 < 40 || n3 < 5 {
 			return fmt.Errorf("unexpectedly few methods: SuObject %d SuRecord %d Frame %d", n1, n2, n3)
 		}
-		out.WriteString("def methods : List Meth := [\n" + strings.Join(all, ",\n") + "\n]\n\nend Gsu.Gen.LockFacts\n")
+		out.WriteString("def methods : List Meth := [\n" + strings.Join(all, ",\n") + "\n]\n\n")
+		if err := propagationFacts(repo, out); err != nil {
+			return err
+		}
+		out.WriteString("\nend Gsu.Gen.LockFacts\n")
 		return nil
 	})
 }
@@ -401,4 +405,432 @@ func (w *lockWalker) expr(e ast.Expr) {
 	default:
 		panic(fmt.Sprintf("lockfacts: unsupported expression %T", e))
 	}
+}
+
+// ---------------------------------------------------------------------------------------------
+// SetConcurrent propagation facts
+//
+// storeFacts: for every method of SuObject / SuRecord and every parameter of type Value:
+// does the method store the parameter into receiver state (assignment whose right side mentions
+// it, mutating call on a receiver field, or passing it on to a receiver method that needs it
+// marked) at a point where it has not been marked by `<param>.SetConcurrent()` — the marking has
+// to be a top-level statement or sit in a top-level `if` on `….concurrent` / `….Lock()`.
+// `needsMarked` = true means: callers must have marked the value. The theorem demands that no
+// exported method needs that.
+//
+// setConcEvents: for SetConcurrent / SetChildConc of SuObject, SuRecord, SuClosure the sequence
+// (source order) of "mark:<receiver field>" and "return" events.
+//
+// cowFacts: for every SuRecord method that calls observers.Push / observers.Remove whether the
+// list was cloned (`r.observers.List = slc.Clone(r.observers.List)`) earlier in the method.
+
+type sfMethod struct {
+	typ, name string
+	exported  bool
+	recv      string
+	params    []string // all parameter names in order
+	isValue   []bool
+	fd        *ast.FuncDecl
+}
+
+func propagationFacts(repo string, out *strings.Builder) error {
+	var ms []*sfMethod
+	byName := map[string]*sfMethod{}
+	files := map[string]*goFile{}
+	for _, ft := range [][2]string{{"core/suobject.go", "SuObject"}, {"core/surecord.go", "SuRecord"}, {"core/suclosure.go", "SuClosure"}} {
+		g := parseGo(filepath.Join(repo, ft[0]))
+		files[ft[1]] = g
+		for _, d := range g.file.Decls {
+			fd, ok := d.(*ast.FuncDecl)
+			if !ok || fd.Recv == nil || len(fd.Recv.List) == 0 || fd.Body == nil || len(fd.Recv.List[0].Names) == 0 {
+				continue
+			}
+			t := fd.Recv.List[0].Type
+			if st, ok := t.(*ast.StarExpr); ok {
+				t = st.X
+			}
+			if id, ok := t.(*ast.Ident); !ok || id.Name != ft[1] {
+				continue
+			}
+			m := &sfMethod{typ: ft[1], name: fd.Name.Name, exported: fd.Name.IsExported(),
+				recv: fd.Recv.List[0].Names[0].Name, fd: fd}
+			for _, p := range fd.Type.Params.List {
+				isV := false
+				if id, ok := p.Type.(*ast.Ident); ok && id.Name == "Value" {
+					isV = true
+				}
+				for _, n := range p.Names {
+					m.params = append(m.params, n.Name)
+					m.isValue = append(m.isValue, isV)
+				}
+			}
+			ms = append(ms, m)
+			byName[m.typ+"."+m.name] = m
+		}
+	}
+	for _, need := range []string{"SuObject.set", "SuObject.add", "SuObject.Insert", "SuObject.Add", "SuRecord.Observer",
+		"SuRecord.RemoveObserver", "SuClosure.SetConcurrent", "SuObject.SetChildConc", "SuRecord.SetConcurrent"} {
+		if byName[need] == nil {
+			return fmt.Errorf("method %s not found", need)
+		}
+	}
+	// ---- storeFacts (fixpoint over "needs its argument marked")
+	needs := map[string]bool{} // "Type.method#param"
+	for round := 0; round < 8; round++ {
+		changed := false
+		for _, m := range ms {
+			if m.typ == "SuClosure" {
+				continue
+			}
+			for pi, p := range m.params {
+				if !m.isValue[pi] {
+					continue
+				}
+				key := m.typ + "." + m.name + "#" + p
+				if !needs[key] && sfNeedsMarked(m, p, needs, byName) {
+					needs[key] = true
+					changed = true
+				}
+			}
+		}
+		if !changed {
+			break
+		}
+	}
+	out.WriteString("/-- (method, Value parameter, exported, the parameter reaches receiver state unmarked) -/\n")
+	out.WriteString("def storeFacts : List (String × String × Bool × Bool) := [\n")
+	var lines []string
+	for _, m := range ms {
+		if m.typ == "SuClosure" {
+			continue
+		}
+		for pi, p := range m.params {
+			if m.isValue[pi] {
+				lines = append(lines, fmt.Sprintf("  (%q, %q, %v, %v)", m.typ+"."+m.name, p, m.exported, needs[m.typ+"."+m.name+"#"+p]))
+			}
+		}
+	}
+	out.WriteString(strings.Join(lines, ",\n") + "\n]\n\n")
+	// ---- setConcEvents
+	out.WriteString("/-- (method, events in source order: mark:<field> | return) -/\n")
+	out.WriteString("def setConcEvents : List (String × List String) := [\n")
+	lines = nil
+	for _, q := range []string{"SuObject.SetConcurrent", "SuObject.SetChildConc", "SuRecord.SetConcurrent", "SuClosure.SetConcurrent"} {
+		m := byName[q]
+		if m == nil {
+			return fmt.Errorf("method %s not found", q)
+		}
+		ev := sfConcEvents(m)
+		for i := range ev {
+			ev[i] = fmt.Sprintf("%q", ev[i])
+		}
+		lines = append(lines, fmt.Sprintf("  (%q, [%s])", q, strings.Join(ev, ", ")))
+	}
+	out.WriteString(strings.Join(lines, ",\n") + "\n]\n\n")
+	// ---- cowFacts
+	out.WriteString("/-- (SuRecord method that changes the observer list, the list is cloned first) -/\n")
+	out.WriteString("def cowFacts : List (String × Bool) := [\n")
+	lines = nil
+	for _, m := range ms {
+		if m.typ != "SuRecord" {
+			continue
+		}
+		mut, cloned, clonedBefore := false, false, false
+		ast.Inspect(m.fd.Body, func(n ast.Node) bool {
+			switch x := n.(type) {
+			case *ast.AssignStmt:
+				if len(x.Lhs) == 1 && len(x.Rhs) == 1 {
+					if exprText(x.Lhs[0]) == m.recv+".observers.List" && exprText(x.Rhs[0]) == "slc.Clone("+m.recv+".observers.List)" {
+						cloned = true
+					}
+				}
+			case *ast.CallExpr:
+				if se, ok := x.Fun.(*ast.SelectorExpr); ok && exprText(se.X) == m.recv+".observers" &&
+					(se.Sel.Name == "Push" || se.Sel.Name == "Remove" || se.Sel.Name == "Pop") {
+					if !mut {
+						clonedBefore = cloned
+					}
+					mut = true
+				}
+			}
+			return true
+		})
+		if mut {
+			lines = append(lines, fmt.Sprintf("  (%q, %v)", m.typ+"."+m.name, clonedBefore))
+		}
+	}
+	if len(lines) < 2 {
+		return fmt.Errorf("expected Observer and RemoveObserver to change the observer list")
+	}
+	out.WriteString(strings.Join(lines, ",\n") + "\n]\n")
+	return nil
+}
+
+func exprText(e ast.Expr) string {
+	switch x := e.(type) {
+	case *ast.Ident:
+		return x.Name
+	case *ast.SelectorExpr:
+		return exprText(x.X) + "." + x.Sel.Name
+	case *ast.CallExpr:
+		var as []string
+		for _, a := range x.Args {
+			as = append(as, exprText(a))
+		}
+		return exprText(x.Fun) + "(" + strings.Join(as, ",") + ")"
+	case *ast.IndexExpr:
+		return exprText(x.X) + "[" + exprText(x.Index) + "]"
+	case *ast.StarExpr:
+		return "*" + exprText(x.X)
+	case *ast.ParenExpr:
+		return "(" + exprText(x.X) + ")"
+	case *ast.BinaryExpr:
+		return exprText(x.X) + " " + x.Op.String() + " " + exprText(x.Y)
+	case *ast.UnaryExpr:
+		return x.Op.String() + exprText(x.X)
+	case *ast.BasicLit:
+		return x.Value
+	}
+	return "?"
+}
+
+func mentions(e ast.Node, name string) bool {
+	found := false
+	ast.Inspect(e, func(n ast.Node) bool {
+		if id, ok := n.(*ast.Ident); ok && id.Name == name {
+			found = true
+		}
+		return !found
+	})
+	return found
+}
+
+func rootedAt(e ast.Expr, recv string) bool {
+	for {
+		switch x := e.(type) {
+		case *ast.IndexExpr:
+			e = x.X
+		case *ast.SliceExpr:
+			e = x.X
+		case *ast.SelectorExpr:
+			e = x.X
+		case *ast.ParenExpr:
+			e = x.X
+		case *ast.StarExpr:
+			e = x.X
+		case *ast.Ident:
+			return x.Name == recv
+		default:
+			return false
+		}
+	}
+}
+
+// sfNeedsMarked: does method m store parameter p while it is not marked?
+func sfNeedsMarked(m *sfMethod, p string, needs map[string]bool, byName map[string]*sfMethod) bool {
+	marked := false
+	result := false
+	isMark := func(s ast.Stmt) bool {
+		es, ok := s.(*ast.ExprStmt)
+		if !ok {
+			return false
+		}
+		c, ok := es.X.(*ast.CallExpr)
+		if !ok {
+			return false
+		}
+		se, ok := c.Fun.(*ast.SelectorExpr)
+		if !ok || se.Sel.Name != "SetConcurrent" {
+			return false
+		}
+		id, ok := se.X.(*ast.Ident)
+		return ok && id.Name == p
+	}
+	var visit func(n ast.Node)
+	visit = func(n ast.Node) {
+		ast.Inspect(n, func(n ast.Node) bool {
+			switch x := n.(type) {
+			case *ast.AssignStmt:
+				// p = …  : a fresh value, no longer marked
+				for _, l := range x.Lhs {
+					if id, ok := l.(*ast.Ident); ok && id.Name == p {
+						for _, r := range x.Rhs {
+							visit(r)
+						}
+						marked = false
+						return false
+					}
+				}
+				for i, l := range x.Lhs {
+					if rootedAt(l, m.recv) {
+						var r ast.Expr
+						if len(x.Rhs) == len(x.Lhs) {
+							r = x.Rhs[i]
+						} else if len(x.Rhs) == 1 {
+							r = x.Rhs[0]
+						}
+						if r != nil && mentions(r, p) && !marked {
+							// index position is not a store of the value
+							if ix, ok := l.(*ast.IndexExpr); !(ok && !mentionsOutsideIndex(r, p) && mentions(ix.Index, p)) {
+								result = true
+							}
+						}
+					}
+				}
+			case *ast.CallExpr:
+				se, ok := x.Fun.(*ast.SelectorExpr)
+				if !ok {
+					return true
+				}
+				argIdx := -1
+				for i, a := range x.Args {
+					if id, ok := a.(*ast.Ident); ok && id.Name == p {
+						argIdx = i
+					}
+				}
+				if argIdx < 0 {
+					return true
+				}
+				// recv.m(…p…) / recv.ob.m(…p…)
+				callee := ""
+				if id, ok := se.X.(*ast.Ident); ok && id.Name == m.recv {
+					callee = m.typ + "." + se.Sel.Name
+				} else if s2, ok := se.X.(*ast.SelectorExpr); ok {
+					if id, ok := s2.X.(*ast.Ident); ok && id.Name == m.recv && s2.Sel.Name == "ob" {
+						callee = "SuObject." + se.Sel.Name
+					}
+				}
+				if callee != "" {
+					if cm := byName[callee]; cm != nil && argIdx < len(cm.params) {
+						if needs[callee+"#"+cm.params[argIdx]] && !marked {
+							result = true
+						}
+					}
+					return true
+				}
+				// recv.field.Put(…p…), recv.field.Push(p)
+				if rootedAt(se.X, m.recv) && (se.Sel.Name == "Put" || se.Sel.Name == "Push") && !marked {
+					result = true
+				}
+			}
+			return true
+		})
+	}
+	for _, s := range m.fd.Body.List {
+		if isMark(s) {
+			marked = true
+			continue
+		}
+		if is, ok := s.(*ast.IfStmt); ok && is.Else == nil {
+			cond := exprText(is.Cond)
+			guard := strings.Contains(cond, ".concurrent") || strings.Contains(cond, ".Lock()")
+			all := len(is.Body.List) > 0
+			for _, b := range is.Body.List {
+				if !isMark(b) {
+					// other markings in the same block are fine
+					if es, ok := b.(*ast.ExprStmt); ok {
+						if c, ok := es.X.(*ast.CallExpr); ok {
+							if se, ok := c.Fun.(*ast.SelectorExpr); ok && se.Sel.Name == "SetConcurrent" {
+								continue
+							}
+						}
+					}
+					all = false
+				}
+			}
+			hasMark := false
+			for _, b := range is.Body.List {
+				if isMark(b) {
+					hasMark = true
+				}
+			}
+			if guard && all && hasMark {
+				marked = true
+				continue
+			}
+		}
+		visit(s)
+	}
+	return result
+}
+
+func mentionsOutsideIndex(e ast.Expr, p string) bool { return mentions(e, p) }
+
+// sfConcEvents: source-order events of a SetConcurrent method
+func sfConcEvents(m *sfMethod) []string {
+	var ev []string
+	rangeVar := map[string]string{} // loop variable -> receiver field it ranges over
+	fieldOf := func(e ast.Expr) string {
+		// recv.a.b -> "a.b" ; loop var -> its field ; x.obs (x loop var) -> field
+		var chain []string
+		for {
+			switch x := e.(type) {
+			case *ast.SelectorExpr:
+				chain = append([]string{x.Sel.Name}, chain...)
+				e = x.X
+				continue
+			case *ast.IndexExpr:
+				e = x.X
+				continue
+			case *ast.Ident:
+				if x.Name == m.recv {
+					return strings.Join(chain, ".")
+				}
+				if f, ok := rangeVar[x.Name]; ok {
+					return f
+				}
+			}
+			return ""
+		}
+	}
+	ast.Inspect(m.fd.Body, func(n ast.Node) bool {
+		switch x := n.(type) {
+		case *ast.RangeStmt:
+			f := fieldOf(x.X)
+			if f != "" {
+				for _, v := range []ast.Expr{x.Key, x.Value} {
+					if id, ok := v.(*ast.Ident); ok && id.Name != "_" {
+						rangeVar[id.Name] = f
+					}
+				}
+			}
+		case *ast.AssignStmt:
+			// iter := recv.named.Iter() ; for k, v, ok := iter() …
+			if len(x.Lhs) >= 1 && len(x.Rhs) == 1 {
+				if c, ok := x.Rhs[0].(*ast.CallExpr); ok {
+					if se, ok := c.Fun.(*ast.SelectorExpr); ok && se.Sel.Name == "Iter" {
+						if f := fieldOf(se.X); f != "" {
+							if id, ok := x.Lhs[0].(*ast.Ident); ok {
+								rangeVar["iter:"+id.Name] = f
+							}
+						}
+					}
+					if id, ok := c.Fun.(*ast.Ident); ok {
+						if f, ok := rangeVar["iter:"+id.Name]; ok {
+							for _, l := range x.Lhs {
+								if li, ok := l.(*ast.Ident); ok {
+									rangeVar[li.Name] = f
+								}
+							}
+						}
+					}
+				}
+			}
+		case *ast.ReturnStmt:
+			ev = append(ev, "return")
+		case *ast.CallExpr:
+			if se, ok := x.Fun.(*ast.SelectorExpr); ok {
+				if se.Sel.Name == "SetConcurrent" {
+					if f := fieldOf(se.X); f != "" {
+						ev = append(ev, "mark:"+f)
+					}
+				}
+				if se.Sel.Name == "SetChildConc" {
+					ev = append(ev, "children")
+				}
+			}
+		}
+		return true
+	})
+	return ev
 }
